@@ -241,7 +241,10 @@ theorem truncation_rejected (C : Container α) (axesOk : List Int → Bool)
 member): whatever the reader returns for a damaged copy of a saved file, a member it presents under one of
 the seven names `load_npz` asks for has the content the original file has under that name (a member whose
 name was damaged is presented under a name outside that vocabulary, or not at all).
-Then the damaged file is rejected or loads **the same array** as the original — never another one. -/
+Then the damaged file is rejected or loads **the same array** as the original — never another one.
+(`h_crc` holds for members `zipfile` reads in one chunk; for a member above 4096 stored bytes `numpy` stops
+reading before the end and the checksum is never compared, unless `load_npz` verifies the archive first
+(`Gen.npzVerifyCrc`): harness/c14.py replays that witness.) -/
 theorem corruption_never_other (axesOk : List Int → Bool) (x : Arr α) (m : Members α) (hs : save x = .ok m)
     (m' : Members α) (h_crc : ∀ k ∈ vocabulary, lookup m' k = none ∨ lookup m' k = lookup m k)
     (y : Arr α) (hl : load axesOk m' = .ok y) : load axesOk m = .ok y :=
